@@ -624,3 +624,42 @@ def check_stateless(run, rule, mod, named_fns, floor):
                    q.split(".")[-1], "; ".join(t for _, t in st[:3])),
                where(mod, st[0][0]) if st else where(mod, fn))
     run.floor("%s: sequence functions examined" % rule, n, floor)
+
+
+def shared_state_writes(world, k, f):
+    """Texts of the places where method `f` of class `k` writes to something
+    shared between the objects of the class: a class-level container reached
+    through self / cls / type(self), the class itself, a module global.  The
+    object's own attributes (`self.x = ...`, containers some method of the
+    class family assigns to `self.x`) are the object's business."""
+    inst = set()
+    for k2 in world.class_order:
+        if k in k2.mro or k2 in k.mro:
+            for (mn, (kind, f2)) in k2.methods.items():
+                for x in _walk_no_nested(f2):
+                    if isinstance(x, ast.Attribute) and isinstance(
+                            x.ctx, ast.Store) and isinstance(
+                                x.value, ast.Name) and x.value.id == "self":
+                        inst.add(x.attr)
+    bad = []
+    for (node, text) in nonlocal_stores(f):
+        if isinstance(node, (ast.Global, ast.Nonlocal)):
+            bad.append(text)
+            continue
+        t = node.func.value if isinstance(node, ast.Call) else node
+        chain = []
+        e = t
+        while isinstance(e, (ast.Attribute, ast.Subscript)):
+            chain.append(e)
+            e = e.value
+        root = e.id if isinstance(e, ast.Name) else None
+        if root == "self":
+            first = chain[-1] if chain else None
+            if isinstance(first, ast.Attribute) and first.attr not in (
+                    "__class__",):
+                if first is t and not isinstance(node, ast.Call):
+                    continue        # self.x = ...
+                if first.attr in inst:
+                    continue        # a container the object made itself
+        bad.append(text)
+    return bad
